@@ -49,7 +49,7 @@ def build(u):
         'FINDING (the contracts state what the code does): the location of a call f(x) is the location of the NAME only, so a node whose last operand is a call ends '
         'before its last token: node_at bounds the end (first token end <= end <= last token end) instead of pinning it; references, array literals and the '
         'bracketed unary forms do end at their last token (stated where proved)',
-        'FINDING: `cast e` reports line / column of its operand e, not of the `cast` keyword, while its span starts at the keyword (line_index)',
+        'a bit cast `cast e` obeys the uniform rule (start, file, line and column of the `cast` keyword): clause cast_spans_from_its_keyword_to_its_type; the first version of this unit pinned the old behaviour (operand line) as a finding, which was a genuine violation and is repaired in the repository (ed22e30)',
         'rule PS1 (units/u_pspan_rules.py): a guarded `match peek(tokens) { Some(t) if G => A, _ => B }` has its guard hoisted (the verifier keeps the reborrow alive over the guarded match)',
         'parse_rest_of_bitwise_expression is verified with loop_isolation(false): its by-value parameter `expression` is reassigned in the loop and the postcondition speaks of its initial value',
         'in this unit parse_unary_expression carries the location clauses only; its C09 literal clauses (which rest on those of parse_primary_expression) stay with U-PLIT',
